@@ -210,21 +210,30 @@ ZeroDen(e) == \E t \in Subterms(e) : t.op = "div" /\ ZeroTerm(t.args[2])
 \*   kind "val": res is the projected result; kind "exc": exc is the exception class
 \*   n0 / n1: size of the expression manager's table before / after the call
 \*   untouched: projections of the expression, keys and values after the call equal those before
+\* Clauses:  Reject / RejectClass   an ill-sorted map raises UPTypeError
+\*           RejectClean            a UPTypeError leaves table size and inputs as they were
+\*           Accept / EitherClass   a compatible map does not raise (an undecided one only UPTypeError)
+\*           Result                 the value returned is Subst(e, m), syntactically
+\*           Semantic               the value returned evaluates like e under sigma[m]
+\*           InputsUntouched        the expression, keys and values are what they were
 \* ---------------------------------------------------------------------------------------
 Fails(c) ==
    LET mv == MapVerdict(c.m)
        ref == Subst(c.e, c.m)
-       unspec == ZeroDen(ref)
+       zd == c.kind = "exc" /\ c.exc = "ZeroDivisionError" /\ mv # "reject" /\ ZeroDen(ref)
    IN (IF mv = "reject" /\ c.kind # "exc" THEN {"Reject"} ELSE {})
       \cup (IF mv = "reject" /\ c.kind = "exc" /\ c.exc # "UPTypeError" THEN {"RejectClass"} ELSE {})
-      \cup (IF c.kind = "exc" /\ c.exc = "UPTypeError" /\ (c.n0 # c.n1 \/ ~c.untouched) THEN {"RejectedBeforeAnythingChanges"} ELSE {})
-      \cup (IF mv = "accept" /\ c.kind = "exc" /\ ~(unspec /\ c.exc = "ZeroDivisionError") THEN {"Accept"} ELSE {})
-      \cup (IF mv = "either" /\ c.kind = "exc" /\ c.exc # "UPTypeError" /\ ~(unspec /\ c.exc = "ZeroDivisionError") THEN {"EitherClass"} ELSE {})
+      \cup (IF c.kind = "exc" /\ c.exc = "UPTypeError" /\ (c.n0 # c.n1 \/ ~c.untouched) THEN {"RejectClean"} ELSE {})
+      \cup (IF mv = "accept" /\ c.kind = "exc" /\ ~zd THEN {"Accept"} ELSE {})
+      \cup (IF mv = "either" /\ c.kind = "exc" /\ c.exc # "UPTypeError" /\ ~zd THEN {"EitherClass"} ELSE {})
       \cup (IF mv # "reject" /\ c.kind = "val" /\ c.res # ref THEN {"Result"} ELSE {})
       \cup (IF c.kind = "val" /\ ~c.untouched THEN {"InputsUntouched"} ELSE {})
-      \cup (IF mv # "reject" /\ c.kind = "val" /\ SemApplicable(c.e, c.m) /\ WellSorted(c.res) /\ ~SemOK(c.e, c.m, c.res)
-            THEN {"Semantic"} ELSE {})
-Unspecified(c) == c.kind = "exc" /\ c.exc = "ZeroDivisionError" /\ ZeroDen(Subst(c.e, c.m)) /\ MapVerdict(c.m) # "reject"
+      \* for res = ref the corollary is MCSubst!Corollary (checked on the same cases); it is evaluated
+      \* here on results that differ from the reference: "also semantically different"
+      \cup (IF mv # "reject" /\ c.kind = "val" /\ c.res # ref /\ SemApplicable(c.e, c.m) /\ WellSorted(c.res)
+                /\ ~SemOK(c.e, c.m, c.res) THEN {"Semantic"} ELSE {})
+      \* outside the documented domain (not a failure; counted by the driver)
+      \cup (IF zd THEN {"UNSPECIFIED"} ELSE {})
 
 \* features of a case that enter the signature of a violation
 Feature(c) ==
